@@ -7,6 +7,7 @@ import (
 	"os"
 	"path/filepath"
 	"sort"
+	"time"
 
 	"cloud.google.com/go/bigtable"
 	btapb "cloud.google.com/go/bigtable/admin/apiv2/adminpb"
@@ -129,10 +130,28 @@ func (w *BTWorld) Close() {
 	if w.conn != nil {
 		w.conn.Close()
 	}
-	if w.srv != nil {
-		w.srv.Close()
-	} else {
-		w.svc.CloseMem()
+	// After a handler has panicked in the middle of an engine operation, closing the engine can
+	// wait for ever (goleveldb waits for the writer that will never finish). The instance is
+	// dead either way: give the close a few seconds, then abandon it (the worker process is
+	// recycled after a bounded number of runs).
+	done := make(chan struct{})
+	var perr interface{}
+	go func() {
+		defer close(done)
+		defer func() { perr = recover() }()
+		if w.srv != nil {
+			w.srv.Close()
+		} else {
+			w.svc.CloseMem()
+		}
+	}()
+	select {
+	case <-done:
+		if perr != nil {
+			panic(perr) // e.g. a lock still held at the end of the run (leaked-lock verdict)
+		}
+	case <-time.After(5 * time.Second):
+		w.rows = nil // their Close would block the same way
 	}
 	// The process is gone: so are the engine handles the server never closes (those of deleted
 	// tables) together with the file locks they hold.
